@@ -59,6 +59,8 @@ def gen(seed):
         rates['down_loss'] = rng.choice([0.05, 0.2])
     knobs['rates'] = rates
     knobs['unsolicited'] = rng.random() < 0.2
+    knobs['max_steps'] = 30_000_000
+    knobs['max_no_progress'] = 30_000_000      # zero-latency handshakes with 600-entry tables
     return {'seed': seed, 'scenario': 'toc-' + mode, 'knobs': knobs, 'device': dev, 'ops': []}
 
 
@@ -128,7 +130,7 @@ def execute(ctx):
         P.sim_sleep(0.3)
 
     verdict = sim.run(scenario)
-    if verdict[0] in ('deadlock', 'timeout'):
+    if verdict[0] in ('deadlock', 'timeout', 'livelock'):
         from simkit.harness import hang_signature
         sg, msg = hang_signature(verdict)
         ctx.violation('0', sg, msg, verdict[1])
